@@ -34,7 +34,7 @@ CHECKS = {
     ),
     "C08": dict(
         technique="Lean 4 proof: invariant by induction over every history of a reference-level heap model (TDV.Alias: objects at addresses, one live bookkeeping object per component, policy = copy out / copy in / in-place update) - no held state dict ever changes under a safe policy, and the criterion is exact - plus value-level theorems (state_dict transparent, load idempotent, exact resume); tied to the code by identity-level differential runs of the real weighted sampler, Unbatcher, Prefetcher, ParallelMapper and single-process StatefulDataLoader against the model, and a byte-level immutability oracle on the real objects",
-        text="Reference level (Props/C08.lean): TDV.Alias.immutable_of_safe - for every policy with Safe = (not inPlace) or (copyIn and copyOut), every initial content and EVERY history of live updates (in place or rebinding), state_dict() calls, loads of any held dict (the same one repeatedly) and user-built dicts, each dict the user holds still has the content it had when handed over; unsafe_mutates - every other policy has a concrete mutating history (so an unsafe site is a violation, and the history is the replay); load_same_continuation - in every reachable state a load continues from the content at hand-over; get_transparent / get_returns_content - state_dict() moves neither the live object nor its content under every policy. Value level: TDV.Node.built_lawful L1, TDV.Loader.get_transparent, load_idempotent, TDV.Weighted.node_resume_exact, TDV.Incr.lossless_state. Tie (K-D leg alias): random histories on the real objects; after every operation object identities (`is`) and canonical contents are observed, each update is mapped to `rebind`/`step`, the site's policy is inferred from the observations (a rewrite to another safe policy is no alarm), the model replays the history and live content, alias bits, held contents and the intact flag are compared step by step; an unsafe inferred policy triggers the history of unsafe_mutates on the real object. Oracle: every returned dict is pickled at creation and deep-compared after later iteration of its producer, after loading it, after iterating the loaded object and after a second load, for StatefulDataLoader configurations (virtual workers) and nodes pipelines (bare and behind a Loader).",
+        text="Reference level (Props/C08.lean): TDV.Alias.immutable_of_safe - for every policy with Safe = (not inPlace) or (copyIn and copyOut), every initial content and EVERY history of live updates (in place or rebinding), state_dict() calls, loads of any held dict (the same one repeatedly) and user-built dicts, each dict the user holds still has the content it had when handed over; unsafe_mutates - every other policy has a concrete mutating history (so an unsafe site is a violation, and the history is the replay); immutable_iff_safe - the equivalence; load_same_continuation - in every reachable state a load continues from the content at hand-over; get_transparent / get_returns_content - state_dict() moves neither the live object nor its content under every policy. Value level: TDV.Node.built_lawful L1, TDV.Loader.get_transparent, load_idempotent, TDV.Weighted.node_resume_exact, TDV.Incr.lossless_state. Tie (K-D leg alias): random histories on the real objects; after every operation object identities (`is`) and canonical contents are observed, each update is mapped to `rebind`/`step`, the site's policy is inferred from the observations (a rewrite to another safe policy is no alarm), the model replays the history and live content, alias bits, held contents and the intact flag are compared step by step; an unsafe inferred policy triggers the history of unsafe_mutates on the real object. Oracle: every returned dict is pickled at creation and deep-compared after later iteration of its producer, after loading it, after iterating the loaded object and after a second load, for StatefulDataLoader configurations (virtual workers) and nodes pipelines (bare and behind a Loader).",
         note="Trusted: Lean kernel + standard axioms; the heap model abstracts ONE mutable bookkeeping object per component (sites: MultiNodeWeightedSampler._datasets_exhausted, Unbatcher._cached_state_dict, _SingleThreadedMapper/_ParallelMapperIter._snapshot, the user dataset's live state behind a single-process StatefulDataLoader); contents are opaque codes fed from the real run. Multi-process StatefulDataLoader snapshots (_worker_snapshots, incremental state) and Loader are outside the heap model: for them aliasing is decided by the byte-wise oracle only (exploration). The oracle found and now guards two repaired defects (weighted sampler kept the loaded map; single-process state_dict aliased dataset state); both are also refuted policies of the model.",
         ref="DESIGN.md §7 C08, §11.8",
     ),
